@@ -24,6 +24,26 @@ pub mod errors;
 pub mod jwk;
 pub mod model;
 
+/// `jsonwebtoken::crypto`: the raw signature primitive. Like the real one it does NOT compare the
+/// key family with the algorithm family (for HS* the real crate keys the HMAC with whatever bytes the
+/// DecodingKey holds): the verdict is "`message`.`signature` is a registered token text whose
+/// signature verifies under this key identity". Every call is logged.
+pub mod crypto {
+    use crate::errors::Result;
+    use crate::{Algorithm, DecodingKey};
+    pub fn verify(signature: &str, message: &[u8], key: &DecodingKey, algorithm: Algorithm) -> Result<bool> {
+        let mut text = String::with_capacity(message.len() + 1 + signature.len());
+        let mut i = 0;
+        while i < message.len() { text.push(message[i] as char); i += 1; }
+        text.push('.');
+        text.push_str(signature);
+        Ok(match crate::model::lookup(&text) {
+            Some(idx) => crate::model::verify_raw(idx, &text, key, algorithm),
+            None => false,
+        })
+    }
+}
+
 use errors::{new_error, Error, ErrorKind, Result};
 use serde::Serialize;
 use serde_json::{Map, Value};
